@@ -5,6 +5,11 @@ import (
 	"os"
 	"path/filepath"
 	"strings"
+	"testing/synctest"
+	"time"
+
+	tqfsnotify "github.com/facebookincubator/tacquito/cmds/server/loader/fsnotify"
+	fsn "github.com/fsnotify/fsnotify"
 
 	"github.com/facebookincubator/tacquito/cmds/server/config"
 
@@ -153,5 +158,106 @@ func errs(e error) string {
 }
 
 func runLoader(ctx context.Context, p *plan.Plan, w *world.World, lg *sut.Logger) *LoaderResult {
+	if p.Scen.Loader.Watcher {
+		return runWatcherHistory(ctx, p, w, lg)
+	}
 	return runLoaderHistory(ctx, p, w, lg)
+}
+
+// runWatcherHistory drives the reference server's file watcher (real watch loop, started
+// through the verif-tagged StartWithEvents hook): real files in a private directory,
+// change events injected by the simulator, the watch loop's one-second tick on the
+// simulated clock. After every step whatever the watcher published is compared with what
+// a fresh loader publishes for the configured file as it is then.
+func runWatcherHistory(ctx context.Context, p *plan.Plan, w *world.World, lg *sut.Logger) *LoaderResult {
+	res := &LoaderResult{}
+	ls := p.Scen.Loader
+	format := p.Scen.Format
+	dir, err := os.MkdirTemp("", "tqsim-watch-")
+	if err != nil {
+		return res
+	}
+	defer os.RemoveAll(dir)
+	path := filepath.Join(dir, "tacquito."+format)
+	src := sut.NewSource(format)
+	events := make(chan fsn.Event)
+	errsCh := make(chan error)
+	wt := tqfsnotify.New(ctx, src, lg)
+	fresh := func() (string, string) {
+		f := sut.NewSource(format)
+		if err := f.Load(path); err != nil {
+			return "", errs(err)
+		}
+		return sut.Canon(<-f.Config()), ""
+	}
+	take := func() []string {
+		var out []string
+		for {
+			select {
+			case v := <-wt.Config():
+				out = append(out, sut.Canon(v))
+				synctest.Wait()
+			default:
+				return out
+			}
+		}
+	}
+	started := false
+	for i, st := range ls.Steps {
+		if st.Doc >= len(p.Scen.RawDocs) {
+			continue
+		}
+		text := []byte(p.Scen.RawDocs[st.Doc])
+		target := path + st.Sibling
+		if werr := os.WriteFile(target, text, 0o644); werr != nil {
+			w.Rec(world.Ev{Actor: "loader", Kind: "harness-error", S: werr.Error()})
+			return res
+		}
+		r := LoaderStepResult{Step: i, Bytes: len(text)}
+		if !started {
+			if st.Sibling != "" {
+				continue // nothing is watching yet
+			}
+			if err := wt.StartWithEvents(path, events, errsCh); err != nil {
+				r.OldErr = errs(err)
+				r.Fresh, r.FreshErr = fresh()
+				w.Rec(world.Ev{Actor: "loader", Kind: "watch-step", A: int64(i), S: "start|" + r.OldErr + "|" + r.FreshErr})
+				res.Steps = append(res.Steps, r)
+				continue
+			}
+			started = true
+			synctest.Wait()
+		} else {
+			if !st.NoEvent {
+				events <- fsn.Event{Name: target, Op: fsn.Write}
+				synctest.Wait()
+			}
+			time.Sleep(1100 * time.Millisecond) // past the watch loop's tick
+			synctest.Wait()
+		}
+		pub := take()
+		r.Fresh, r.FreshErr = fresh()
+		main := st.Sibling == "" && !st.NoEvent
+		for _, v := range pub {
+			r.Old = v
+			if r.FreshErr != "" {
+				w.Rec(world.Ev{Actor: "loader", Kind: "watch-published-unloadable", A: int64(i), S: r.FreshErr})
+			} else if v != r.Fresh {
+				w.Rec(world.Ev{Actor: "loader", Kind: "watch-published-differs", A: int64(i), S: st.Sibling, Bytes: []byte(clipS(v, 300) + "\n" + clipS(r.Fresh, 300))})
+			}
+		}
+		if len(pub) == 0 && main && r.FreshErr == "" {
+			w.Rec(world.Ev{Actor: "loader", Kind: "watch-missed-change", A: int64(i)})
+		}
+		w.Rec(world.Ev{Actor: "loader", Kind: "watch-step", A: int64(i), B: int64(len(pub)), S: st.Sibling + "|" + r.FreshErr})
+		res.Steps = append(res.Steps, r)
+	}
+	return res
+}
+
+func clipS(s string, n int) string {
+	if len(s) > n {
+		return s[:n]
+	}
+	return s
 }
